@@ -563,6 +563,31 @@ def c04(chk, thorough):
         chk.floor(r_, fl)
 
 
+def c09(chk, thorough):
+    from . import cpcacheck, guards
+    chk.explanation = (
+        'Decides the exact-arithmetic mechanism of CPCA with the free vector algebra of E18, every loop over the blocks being interpreted once for a '
+        'generic block k (Eb->m[k] is the base matrix Eb[k], scaling_factor[k] an opaque positive scalar; work vectors written in the loop body first get '
+        'an opaque "left by the previous block" value, so a missing reset shows). (CPCA.block-loadings) CalcBlockLoadings adds Xb\'t/t\'t. '
+        '(CPCA.iteration) per pass: p_b = unit(Eb[k]\'t/t\'t), t_b = Eb[k]p_b/sf_k stored as row k of the table, w = unit(T\'t/t\'t), t_new = T w for '
+        'that very table and weight -- so the stored triple satisfies "super score = block scores x super weights" exactly. (CPCA.component) on the way '
+        'out the table, t_new and w are what is stored; the stored block loading is Eb[k]\'t_new/t_new\'t_new and the block is deflated by exactly '
+        't_new (stored loading)\', hence Eb[k]_new\' t_new = 0; total explained variance = squared norm of a super-score iterate / ss * 100; otherwise '
+        't <- t_new. (CPCA.scaling) factor = sqrt(block width), in block order; ss = sum (cell / factor of its block)^2 before any deflation; the '
+        'preprocessing goes into the model statistics. (CPCA.score-predictor) the projection mirrors the pass with the stored loadings and weights and '
+        'deflates with the stored loading. NOT decided: that the super scores equal the PCA scores of the block-scaled concatenation (a theorem about '
+        'this algorithm at convergence, Westerhuis et al. 1998), ranges / monotonicity of the explained variances, convergence (C18), re-projection '
+        'equality (holds to the convergence tolerance: stored loadings come from t_new, the pass used t).')
+    chk.assumptions = ['real arithmetic; norms and scaling factors positive', 'the kernel table of E18; blocks of a tensor do not alias',
+                       'generic-block interpretation: iterations of a loop over the blocks interact only through the row/column they store']
+    prog = load_program(chk, ['cpca.c', 'pca.c', 'matrix.c', 'vector.c', 'tensor.c', 'preprocessing.c'])
+    cpcacheck.run(chk, prog)
+    guards.kernel_tolerances(chk, prog, {'cpca.c': ['CPCA', 'CalcBlockLoadings']}, table={}, rule='SV.tolerance',
+                             what='CPCA fit routines (no absolute tolerance on scores, loadings, weights)')
+    for r_, fl in (('CPCA.block-loadings', 1), ('CPCA.iteration', 1), ('CPCA.component', 1), ('CPCA.scaling', 3), ('CPCA.score-predictor', 1)):
+        chk.floor(r_, fl)
+
+
 def c17(chk, thorough):
     from . import kmeanscheck, slices
     chk.explanation = (
@@ -601,6 +626,7 @@ def c17(chk, thorough):
 CHECKS = {
     'C01': c01,
     'C04': c04,
+    'C09': c09,
     'C07': c07,
     'C17': c17,
     'C13': c13,
